@@ -3,23 +3,36 @@ import json, base64, math, struct, os, subprocess
 
 PROPS = ["C02/Props.v"]
 META = dict(
-    text="Rocq theorems over an executable model of the title-line machinery: the (repaired) brace/quote scanner of _parse_json_header_ "
-         "delimits exactly the serialised annotation object for every JSON value and every trailing text (proved by induction on the "
-         "value, escaped quotes and braces inside strings included), the header parser returns the annotations it was given, 60-column "
-         "folding loses nothing and produces no empty line, the quality shift round-trips every score 0..93 for every offset. On every run "
-         "random records (specials in ids/keys/strings, UTF-8, ints to 2^53, floats, nested maps/lists, lengths around the 60-column fold, "
-         "qualities 0..93, offsets 33/64) go through the REAL FormatFasta/FastqBatch -> Fasta/FastqChunkParser -> header parser -> format again; "
-         "a Python oracle checks record equality and the byte-identical second write, and the model is evaluated by vm_compute on the same inputs.",
-    note="Trusted: Coq kernel + vm_compute; go-json's decoder (parameter dec, assumed to invert the marshaller on canonical objects; exercised on every generated value) and its "
-         "number formatting (number tokens are inputs of the model); harness/generators. Invalid UTF-8 in strings (go-json writes \\ufffd) is outside "
-         "the model and the claim. The byte automata of FastaChunkParser/FastqChunkParser are transcribed and proved on whole written batches; the chunk splitter "
-         "(ReadSeqFileChunk, EndOfLast*Entry) belongs to C01 and is only exercised here through the obiconvert end-to-end stage. "
-         "C02_reparse_keeps_annotations is partial (no model of the decoder on arbitrary accepted text). Defect fixed in the worktree: escaped quotes in the title-line scanner.")
-TRUSTED = ["go-json decoder: a parameter dec of the theorems; the round-trip / fixed-point theorems only assume dec_inverts: dec (ser (JObj ann)) = Some (JObj ann) "
-           "for the annotations of the records at hand (true of go-json for the canonical member order the writer produces; exercised on every generated record by "
-           "the harness: decoded annotations = written annotations, second write byte-identical)",
-           "number tokens (strconv float/int formatting) are inputs of the model, taken from the real encoder; that float64 values re-marshal to the same token is checked by the harness only",
-           "strings.TrimSpace is modelled for ASCII white space only; invalid UTF-8 in strings is outside the model"]
+    text="Rocq theorems over an executable model of the title-line machinery. Round 2: the JSON decoder is inside the model (an executable parser jparse: white space, "
+         "every escape of the basic plane, number tokens checked against the JSON grammar) and is proved to invert the marshaller on every well-formed value, so the header, "
+         "FASTA/FASTQ round-trip and write-fixed-point theorems carry no hypothesis on the decoder (json and guessed parser, records with or without annotations); "
+         "decoding into a Go map (members by key, last repeated key wins, numbers as float64) is modelled and proved canonical, and 're-parsing a formatted header never changes "
+         "or loses annotations' is proved at full strength for ANY title line the parser accepts (C02_reparse_keeps_annotations / _record: text before/after the object, "
+         "definition appended). The number path token -> float64 -> token is transcribed for integer tokens: integers |x| <= 2^53 are proved fixed points, 2^53+1 is not. "
+         "As before: the repaired brace/quote scanner delimits exactly the serialised object, folding, quality offsets, byte automata of the chunk parsers on whole batches. "
+         "On every run random records and free-style JSON title lines (white space, shuffled/repeated keys, alternative escapes, integers up to 25 digits, numbers at and "
+         "beyond 2^53, Unicode blanks after the object) go through the REAL writer / chunk parser / header parsers / go-json decode+encode; a Python oracle checks record equality, "
+         "exact integers up to 2^53, the byte-identical second write, every input/output quality-offset pair and `obiconvert` (default, --input-json-header, --solexa); the model "
+         "(jparse, map decoder, number path included) is evaluated by vm_compute on the same inputs.",
+    note="Trusted: Coq kernel + vm_compute; harness/generators. go-json is no longer a hypothesis of the theorems but the tie between it and jparse/jdec is by correspondence (every "
+         "generated value and title line: go-json decode + encode = model), one-directional on free text: what the model accepts go-json accepts with the same result; go-json is more lenient "
+         "(01, 1., -.5, surrogate escapes: not modelled, the model refuses). Number path: transcribed for every JSON number token (exact decimal -> nearest float64 -> shortest decimal -> go-json layout) and compared with "
+         "the real ParseFloat/AppendFloat64 on every generated number (any spelling: 2.50, 1E5, 25-digit integers, subnormals); proved only for integer tokens: |x| <= 2^53 are fixed points "
+         "(that an integral float64 below 2^53 prints as its decimal digits is transcribed from strconv's contract, not derived from its algorithm). That a token produced by the encoder "
+         "for a float is a fixed point of read-then-write is NOT proved (shortest-digits round trip): it is the decidable premise numfixed of the float64 theorems, evaluated in Coq on every generated value. Invalid UTF-8 in strings is outside the claim (it speaks of Unicode strings) but, since round 2, inside the model: decided on the real code - the marshaller writes each bad byte as "
+         "the 6 characters \\ufffd, the reader returns U+FFFD, the next write emits it raw, so the value changes and the first re-write is NOT byte-identical (stable afterwards): "
+         "C02_invalid_utf8_refuted, and utf8v (all strings valid UTF-8) is an explicit premise of every theorem that goes through the decoder; measured on every run (coverage.invalid_utf8). "
+         "Not modelled: the OBI-style header parser beyond the empty definition (guessed parser on a title not starting with a brace), a non-string 'definition' member followed by text, "
+         "surrogate \\u escapes, raw NUL in strings (go-json refuses it). The chunk splitter belongs to C01 (exercised through obiconvert). Quality offsets on the command line: only --solexa "
+         "(input 64) exists; output 64 is reachable programmatically only and is covered through the library calls. Defect fixed in round 1: escaped quotes in the title-line scanner.")
+TRUSTED = ["go-json decoder/encoder vs the model's jparse / jdec renum64 / ser: tied by correspondence on every generated value, record and free-style title line (CSer, CDec, CHdr), not by proof; "
+           "on free text one direction only (model accepts => go-json accepts, same annotations)",
+           "number path: renum64 transcribes ParseFloat (nearest float64, ties to even, subnormals) and go-json's AppendFloat64 (shortest digits that read back, 'e' layout below 1e-6 and from 1e21) "
+           "for every JSON number token; compared with the real pair on every run; the branch 'an integral float64 below 2^53 prints as its decimal digits' of the integer transcription is "
+           "taken from strconv's contract; tokens beyond the float64 range (the reader dies) are left unchanged by the model",
+           "strings.TrimSpace is modelled for ASCII blanks and the Unicode White_Space runes in UTF-8; UTF-8 validation of the marshaller is transcribed from Go's acceptance ranges "
+           "(compared with go-json on random invalid byte strings on every run)",
+           "ParseFastSeqOBIHeader is modelled only on the empty definition (does nothing)"]
 
 SPECIALS = ['"', '\\', '{', '}', ';', '=', '>', '@', '+', ' ', '\t', '\n', '\r', '\x00', '\x01', '\x08', '\x0b', '\x0c', '\x1f', '\x7f',
             '<', '&', ':', ',', '[', ']', '/', "'", 'é', '中', ' ', ' ', '\U0001f600', ' ', '�', 'u', 'n']
@@ -51,10 +64,19 @@ def gen_text(rng, maxlen=10, blanks=True, minlen=0):
     return "".join(out).encode("utf8")
 
 
+INT_EDGE = [0, 1, -1, 2 ** 53, -2 ** 53, 2 ** 53 - 1, -2 ** 53 + 1, 2 ** 53 - 2, 2 ** 52, 2 ** 52 + 1, 2 ** 31, 2 ** 31 - 1, -2 ** 31, 2 ** 32, 10, 100, 999999,
+            1000000, 10 ** 15, 10 ** 15 + 1, 9007199254740990, 9000000000000000, -9007199254740991]
+# integers the claim does not cover (|x| > 2^53: the reader's float64 cannot hold them all): only sent through the marshaller /
+# decoder pair (mode enc) where the model's number path is compared with the real one
+INT_OUTSIDE = [2 ** 53 + 1, -2 ** 53 - 1, 2 ** 53 + 2, 2 ** 53 + 3, 2 ** 54 + 2, 2 ** 62 + 1, 2 ** 63 - 1, -2 ** 63, 10 ** 18 + 1, 999999999999999999, 123456789012345678]
+FLOAT_EDGE = [1e20, -2.5e19, 2.0 ** 63, -2.0 ** 63, 2.0 ** 53, 2.0 ** 53 + 2, -2.0 ** 53, 2.0 ** 64, 1e21, 9.99999999999999e20, 1e22, 1.2345678901234567e19, 4.611686018427388e18,
+              123456789012345680000.0, 1e19, 3e18, 9.007199254740993e15, 1.8446744073709552e19, 5e20, 1e17, 1.5e300]
+
+
 def gen_int(rng):
     k = rng.random()
     if k < 0.3:
-        return rng.choice([0, 1, -1, 2 ** 53, -2 ** 53, 2 ** 53 - 1, 2 ** 31, 2 ** 31 - 1, -2 ** 31, 2 ** 32, 10, 100, 999999, 1000000, 10 ** 15])
+        return rng.choice(INT_EDGE)
     if k < 0.6:
         return rng.randrange(-1000, 1000)
     return rng.randrange(-2 ** 53, 2 ** 53 + 1)
@@ -62,13 +84,17 @@ def gen_int(rng):
 
 def gen_float(rng):
     k = rng.random()
-    if k < 0.25:
+    if k < 0.15:
+        return rng.choice(FLOAT_EDGE)
+    if k < 0.3:
         return rng.choice([0.0, 1.0, -1.0, 0.5, 1.5, 0.1, 1e-6, 9.999e-7, 1e-7, 1e20, 1e21, 1.5e21, 1e300, 5e-324, 1.7976931348623157e308,
                            3.0, 100.0, 123456789.0, 2.0 ** 53, 0.3, 2.5e-5, -7.25, 1e6, 1e15, 1e16])
     if k < 0.5:
         return round(rng.uniform(-1000, 1000), rng.randrange(0, 6))
-    if k < 0.7:
+    if k < 0.6:
         return float(rng.randrange(-10 ** 6, 10 ** 6))
+    if k < 0.7:
+        return float(rng.choice([1, -1]) * rng.randrange(2 ** 53, 2 ** 70))      # integral beyond 2^53 (every float64 that large is integral)
     while True:
         x = struct.unpack("<d", struct.pack("<Q", rng.getrandbits(64)))[0]
         if math.isfinite(x) and not (x == 0 and math.copysign(1, x) < 0):
@@ -152,7 +178,21 @@ CORPUS = [
     dict(mode="rt", fmt="fasta", shift=33, parser="json",
          recs=[R(b"n", b"acgt", {b"m": ("map", {b"x": ("list", [("int", 1), S('"'), ("map", {b"}": ("bool", True), b"n": ("null",)})])}), b"l": ("ints", [])})], tag="nested"),
     dict(mode="rt", fmt="fastq", shift=33, parser="json", recs=[R(b"c1", b"acgtac", qual=[93, 94, 95, 200, 255, 0])], tag="clamp-above-93 (outside the claim: comes back as 93)"),
+    dict(mode="rt", fmt="fasta", shift=33, parser="json",
+         recs=[R(b"big", b"acgt", {b"count": ("int", 12), b"big_int": ("int", 2 ** 53), b"neg": ("int", -2 ** 53), b"score": ("float", 3.0), b"likelihood": ("float", 1e20),
+                                   b"neg_weight": ("float", -2.5e19), b"p63": ("float", 2.0 ** 63), b"l": ("list", [("float", 1e20), ("int", 2 ** 53 - 1)])})], tag="numbers-at-and-beyond-2^53 (C02-A)"),
+    dict(mode="rt", fmt="fastq", shift=64, parser="guessed", recs=[R(b"g0", b"acgt", qual=[1, 2, 3, 4]), R(b"g1", b"ac", {b"a": ("int", 1)}, qual=[5, 6])], tag="guessed-without-annotation"),
     dict(mode="scan", header=b'{"a":"q\\"}"} rest', tag="fixed:scan-fatal"),
+    dict(mode="scan", header=b'{ "b" : [1, 2 ,{"x":null}] ,\t"a":"\\u00e9\\/\\b" , "b":true } tail', strict=True, tag="hdr-whitespace-order-duplicate"),
+    dict(mode="scan", header=b'{"n":9007199254740993,"m":0,"k":123456789012345678901234,"z":1e-07}', strict=True, tag="hdr-numbers"),
+    dict(mode="scan", header=b'{"definition":"d1","a":1}   more text ', strict=True, tag="hdr-definition-appended"),
+    dict(mode="scan", header=b'{"a":1}\xc2\xa0x y\xe3\x80\x80\xe2\x80\xa8', strict=True, tag="hdr-unicode-trimspace"),
+    dict(mode="scan", header=b'x {"a":1} y', tag="hdr-text-before"),
+    dict(mode="scan", header=b'{"a":"\\ud83d\\ude00|\\ud800|\\udc00\\ud83d|\\ud800\\u0041"}', strict=True,
+         expect=b'{"a":"\xf0\x9f\x98\x80|\xef\xbf\xbd|\xef\xbf\xbd\xef\xbf\xbd|\xef\xbf\xbdA"}', tag="hdr-surrogates"),
+    dict(mode="scan", header=b'{"x":2.50,"y":1E5,"z":0.0000001,"w":123456789.123456789e-3,"v":0.0,"u":4.9406564584124654e-324}', strict=True,
+         expect=b'{"u":5e-324,"v":0,"w":123456.78912345679,"x":2.5,"y":100000,"z":1e-07}', tag="hdr-number-spellings"),
+    dict(mode="scan", header=b'{"a":"\xff\xe9"}', tag="invalid-utf8 (outside the claim)"),
     dict(mode="scan", header=b'{"a":"\\"{"} rest', tag="fixed:scan-silent"),
     dict(mode="scan", header=b'{"a":"\\\\"} {"b":1}', tag="scan-escaped-backslash"),
     dict(mode="scan", header=b'text {"a":1} more', tag="scan-prefix"),
@@ -177,12 +217,166 @@ def gen_scan(rng):
     return ("obj", pre, obj, rest)
 
 
+GO_FLOAT_TOKENS = [b"0.5", b"1.5", b"-7.25", b"0.1", b"3.14", b"1e+21", b"1.5e+21", b"1e-07", b"0.000025", b"9.999e-07", b"1e+300", b"-0.001", b"2.5"]
+JWS = [b"", b"", b"", b" ", b"  ", b"\t"]
+
+
+def gen_jtext_value(rng, depth=0):
+    """a value as (kind, payload) for free-style JSON text: ('num', token bytes) | ('str', bytes) | ('lit', bytes) | ('arr', [..]) | ('obj', [(k, v)..] with repeats)"""
+    k = rng.random()
+    if k < 0.3:
+        r = rng.random()
+        if r < 0.3:
+            return ("num", str(rng.choice(INT_EDGE + INT_OUTSIDE)).encode())       # (no -0: equal to 0 by value, the only number whose int/float64 nature shows)
+        if r < 0.6:
+            return ("num", str(rng.randrange(-10 ** rng.randrange(1, 26), 10 ** rng.randrange(1, 26))).encode())
+        if r < 0.7:
+            return ("num", rng.choice(GO_FLOAT_TOKENS))
+        if r < 0.9:
+            # any spelling of a decimal number: the reader makes a float64 of it, the writer prints the shortest digits
+            t = ("-" if rng.random() < 0.3 else "") + str(rng.randrange(0, 10 ** rng.randrange(1, 20)))
+            if rng.random() < 0.7:
+                t += "." + "".join(rng.choice("0123456789") for _ in range(rng.randrange(1, 20)))
+            if rng.random() < 0.5:
+                t += rng.choice("eE") + rng.choice(["", "+", "-"]) + str(rng.randrange(0, rng.choice([3, 30, 300])))
+            return ("num", t.encode())
+        return ("num", rng.choice([b"2.50", b"1E5", b"1e5", b"0.10", b"100e-2", b"1.0", b"0e0", b"1e-7", b"0.000001", b"0.0000009999", b"1e21", b"999999999999999999999.9",
+                                   b"4.35", b"0.3", b"5e-324", b"2e-324", b"1.7976931348623157e308", b"4.9406564584124654e-324", b"2.2250738585072014e-308", b"9007199254740993.0",
+                                   b"9007199254740992.5", b"0.1e1", b"123456789.123456789"]))
+    if k < 0.6:
+        return ("str", gen_text(rng, 6, blanks=rng.random() < 0.5))
+    if k < 0.7:
+        return ("lit", rng.choice([b"true", b"false", b"null"]))
+    if depth >= 2:
+        return ("num", b"7")
+    if k < 0.85:
+        return ("arr", [gen_jtext_value(rng, depth + 1) for _ in range(rng.randrange(0, 4))])
+    return ("obj", gen_jtext_members(rng, depth + 1))
+
+
+def gen_jtext_members(rng, depth=0):
+    ms = [(gen_text(rng, 4, blanks=False), gen_jtext_value(rng, depth)) for _ in range(rng.randrange(0, 4))]
+    if ms and rng.random() < 0.3:
+        ms.insert(rng.randrange(0, len(ms) + 1), (rng.choice(ms)[0], gen_jtext_value(rng, depth)))      # a repeated key
+    return ms
+
+
+def jtext_string(rng, b):
+    """one of the many JSON spellings of a byte string (valid UTF-8, no line terminator raw)"""
+    out = bytearray(b'"')
+    for ch in b.decode("utf8"):
+        o = ord(ch)
+        r = rng.random()
+        if ch in '"\\':
+            out += b"\\" + ch.encode()
+        elif ch == "/" and r < 0.5:
+            out += b"\\/"
+        elif o < 32 or (o < 0xd800 and r < 0.15) or o in (0x2028, 0x2029) and r < 0.5:
+            short = {8: b"\\b", 12: b"\\f", 10: b"\\n", 13: b"\\r", 9: b"\\t"}
+            if o in short and r < 0.6:
+                out += short[o]
+            elif o in (10, 13) or r < 0.8:
+                out += b"\\u%04x" % o if rng.random() < 0.5 else b"\\u%04X" % o
+            elif o == 0:
+                out += b"\\u0000"                 # go-json refuses a raw NUL byte (it ends its buffer)
+            else:
+                out += ch.encode("utf8")          # raw control byte (go-json takes it)
+        elif o >= 0x10000 and r < 0.5:
+            u = o - 0x10000
+            out += b"\\u%04x\\u%04x" % (0xd800 + (u >> 10), 0xdc00 + (u & 0x3ff))      # UTF-16 surrogate pair, as json.dumps writes it
+        else:
+            out += ch.encode("utf8")
+    return bytes(out + b'"')
+
+
+def jtext_render(rng, v, ws):
+    w = (lambda: rng.choice(JWS)) if ws else (lambda: b"")
+    t = v[0]
+    if t in ("num", "lit"):
+        return v[1]
+    if t == "str":
+        return jtext_string(rng, v[1])
+    if t == "arr":
+        return b"[" + w() + (w() + b"," + w()).join(jtext_render(rng, x, ws) for x in v[1]) + w() + b"]"
+    return b"{" + w() + (w() + b"," + w()).join(jtext_string(rng, k) + w() + b":" + w() + jtext_render(rng, x, ws) for k, x in v[1]) + w() + b"}"
+
+
+def go_float(f):
+    """go-json AppendFloat64: shortest digits, 'e' format below 1e-6 and from 1e21 on"""
+    from decimal import Decimal
+    if f == 0:
+        return b"-0" if math.copysign(1, f) < 0 else b"0"
+    sign, digits, exp = Decimal(repr(f)).as_tuple()
+    digits = list(digits)
+    while len(digits) > 1 and digits[-1] == 0:
+        digits.pop()
+        exp += 1
+    ds = "".join(map(str, digits))
+    dp = len(ds) + exp
+    a = abs(f)
+    if a < 1e-6 or a >= 1e21:
+        e = dp - 1
+        out = ds[0] + ("." + ds[1:] if len(ds) > 1 else "") + "e" + ("-" if e < 0 else "+") + "%02d" % abs(e)
+    elif dp <= 0:
+        out = "0." + "0" * (-dp) + ds
+    elif dp >= len(ds):
+        out = ds + "0" * (dp - len(ds))
+    else:
+        out = ds[:dp] + "." + ds[dp:]
+    return (("-" if sign else "") + out).encode()
+
+
+def jtext_canonical(v):
+    """what the writer emits after the value went through a Go map with float64 numbers (independent of the Coq model)"""
+    t = v[0]
+    if t == "lit":
+        return v[1]
+    if t == "num":
+        f = float(v[1].decode())
+        if math.isinf(f):
+            raise OverflowError
+        return go_float(f)
+    if t == "str":
+        return enc_key(v[1])
+    if t == "arr":
+        return b"[" + b",".join(jtext_canonical(x) for x in v[1]) + b"]"
+    m = {}
+    for k, x in v[1]:
+        m[k] = x
+    return b"{" + b",".join(enc_key(k) + b":" + jtext_canonical(m[k]) for k in sorted(m, key=enc_key)) + b"}"
+
+
+def gen_hdr(rng):
+    """a title-line remainder nobody formatted: JSON in free style (+ text after it); the expected formatted header"""
+    ms = gen_jtext_members(rng)
+    txt = jtext_render(rng, ("obj", ms), rng.random() < 0.7)
+    tail = rng.choice([b"", b"", b" tail", b"  two words  ", b"\xc2\xa0nbsp\xe2\x80\x83", b"x"])
+    m = {}
+    for k, x in ms:
+        m[k] = x
+    d = tail.decode("utf8").strip().encode("utf8")
+    if d:
+        old = m.get(b"definition")
+        if old is None:
+            m[b"definition"] = ("str", d)
+        elif old[0] == "str":
+            m[b"definition"] = ("str", old[1] + b" " + d)
+        else:
+            return dict(mode="scan", header=txt + tail)          # a non-string definition member: not modelled
+    try:
+        exp = jtext_canonical(("obj", list(m.items()))) if m else b""
+    except OverflowError:
+        return dict(mode="scan", header=txt + tail)              # a number beyond the float64 range: the reader dies (ParseFloat), not modelled
+    return dict(mode="scan", header=txt + tail, strict=True, expect=exp)
+
+
 def gen_cases(ctx, n_rt, n_scan, n_enc):
     rng = ctx.rng
     cases = [dict(c) for c in CORPUS]
     for _ in range(n_rt):
         fmt = rng.choice(["fasta", "fastq"])
         cases.append(dict(mode="rt", fmt=fmt, shift=rng.choice([33, 33, 64, 64, 40]) if fmt == "fastq" else 33, parser=rng.choice(["json", "guessed"]),
+                          shift2=rng.choice([33, 64]) if fmt == "fastq" else 0,       # every input/output offset combination
                           recs=[gen_rec(rng, fmt) for _ in range(rng.choice([1, 1, 2, 3]))]))
     for _ in range(n_scan):
         g = gen_scan(rng)
@@ -190,8 +384,20 @@ def gen_cases(ctx, n_rt, n_scan, n_enc):
             cases.append(dict(mode="scan", obj=g[2], pre=g[1], rest=g[3]))      # header filled in after the enc pass
         else:
             cases.append(dict(mode="scan", header=g))
+    for _ in range(n_scan // 2):
+        cases.append(gen_hdr(rng))
     for _ in range(n_enc):
         cases.append(dict(mode="enc", val=gen_value(rng)))
+    for x in INT_OUTSIDE:
+        cases.append(dict(mode="enc", val=("int", x), outside=True))
+    inv = [b"\xff", b"\xe9t\xe9", b"a\xc0\xafb", b"\xed\xa0\x80", b"\xe2\x80", b"\xf4\x90\x80\x80", b"\xe0\x9f\xbf", b"\xf0\x8f\xbf\xbf", b"\xc2", b"\xe2\x80\xa8\xe2\x80",
+           b"\xf0\x9f\x98", b"\x80\xbf", b"\xed\x9f\xbf\xee\x80\x80", b"\xf4\x8f\xbf\xbf\xf5", b"12345678\xff", b"\xc3\xa9\xc3"]
+    for _ in range(max(10, n_enc // 5)):
+        inv.append(bytes(rng.choice([0x41, 0x22, 0x5c, 0x7f, 0x80, 0xa8, 0xbf, 0xc0, 0xc2, 0xdf, 0xe0, 0xe2, 0xed, 0xef, 0xf0, 0xf4, 0xf5, 0xff, 0x9f, 0xa0, 0x90, 0x8f])
+                         for _ in range(rng.randrange(1, 12))))
+    for b in inv:
+        v = ("str", b) if rng.random() < 0.7 else ("map", {b: ("str", b[::-1]), b"k": ("int", 1)})
+        cases.append(dict(mode="enc", val=v, outside=not val_utf8(v), invalid_utf8=not val_utf8(v)))
     return cases
 
 
@@ -236,10 +442,15 @@ def val_vh(v):
 
 def to_vh(c):
     if c["mode"] == "scan":
-        return dict(mode="scan", header=b64(c["header"]))
+        d = dict(mode="scan", header=b64(c["header"]))
+        if c.get("strict"):
+            d["strict"] = True
+            if "expect" in c:
+                d["expect"] = b64(c["expect"])
+        return d
     if c["mode"] == "enc":
         return dict(mode="enc", val=val_vh(c["val"]))
-    return dict(mode="rt", fmt=c["fmt"], shift=c["shift"], parser=c["parser"],
+    return dict(mode="rt", fmt=c["fmt"], shift=c["shift"], shift2=c.get("shift2", 0), parser=c["parser"],
                 recs=[dict(id=b64(r["id"]), **{"def": b64(r["definition"])}, seq=b64(r["seq"]), qual=r["qual"],
                            ann={b64(k): val_vh(v) for k, v in r["ann"].items()}) for r in c["recs"]])
 
@@ -270,6 +481,8 @@ def plain(v):
 def same(a, b):
     if isinstance(a, bool) or isinstance(b, bool):
         return isinstance(a, bool) and isinstance(b, bool) and a == b
+    if isinstance(a, int) and isinstance(b, int) and (abs(a) <= 2 ** 53 or abs(b) <= 2 ** 53):
+        return a == b                    # ints |x| <= 2^53: exactly
     if isinstance(a, (int, float)) and isinstance(b, (int, float)):
         return float(a) == float(b)      # every number is a float64 on the Go side (the canonical text may print it as an integer)
     if isinstance(a, str) and isinstance(b, str):
@@ -313,8 +526,18 @@ def oracle_rt(c, o):
             return "record %d: annotations not serialisable (%s)" % (i, x["ann"][:60])
         if not same(got, e["ann"]):
             return "record %d: annotations changed" % i
-    if o["w1"] != o["w2"]:
-        return "second write differs from the first (not a fixed point)"
+    s2 = c.get("shift2", 0)
+    if s2 in (0, c["shift"]) or c["fmt"] != "fastq":
+        if o["w1"] != o["w2"]:
+            return "second write differs from the first (not a fixed point)"
+    if c["fmt"] == "fastq" and s2:
+        # second write with another quality offset, read with that offset: same scores
+        want = [expected_rec(r, "fastq")["qual"] for r in c["recs"]]
+        if o.get("qual2") != want:
+            return "qualities changed through output offset %d / input offset %d" % (s2, s2)
+        a, b = unb64(o["w1"]).split(b"\n"), unb64(o["w2"]).split(b"\n")
+        if len(a) != len(b) or any(x != y for k, (x, y) in enumerate(zip(a, b)) if k % 4 != 3):
+            return "second write (offset %d) differs from the first outside the quality lines" % s2
     return None
 
 
@@ -331,6 +554,27 @@ def oracle_scan(c, o):
             return "remainder (definition) changed"
     if o["kind"] == "fatal-reparse":
         return "re-parsing the formatted header died"
+    valid_utf8 = True
+    try:
+        c["header"].decode("utf8")
+    except UnicodeDecodeError:
+        valid_utf8 = False
+    if o.get("hkind") == "ok" and valid_utf8:
+        # full strength: whatever title line the header parser accepted, its formatted header re-parses to the same annotations
+        if o.get("henc2") != o.get("henc"):
+            return "re-parsing the formatted header of an accepted title line changed it: %r -> %r" % (unb64(o.get("henc", "")), unb64(o.get("henc2", "")))
+    if c.get("strict"):
+        if o.get("hkind") != "ok":
+            return "the header parser died on a well-formed JSON title line"
+        def value_of(b):
+            try:
+                return json.loads(b.decode("utf8")) if b else {}
+            except Exception:
+                return "unparsable: %r" % b
+        if "expect" in c and not same(value_of(unb64(o.get("henc", ""))), value_of(c["expect"])):
+            return "annotations read from a free-style JSON title line differ from its content: %r instead of %r" % (unb64(o.get("henc", "")), c["expect"])
+        if "expect" in c and c["header"].startswith(b"{") and not same(value_of(unb64(o.get("genc", ""))), value_of(c["expect"])):
+            return "guessed parser: annotations differ from the JSON parser's on a title line starting with a brace"
     if o["kind"] == "ok" and o.get("ann2") is not None and o.get("ann") not in (None, "{}"):
         if not same(json.loads(o["ann2"]), json.loads(o["ann"])) or unb64(o.get("rest2", "")) != b"":
             return "re-parsing the formatted header changed the annotations"
@@ -338,7 +582,12 @@ def oracle_scan(c, o):
 
 
 def oracle_enc(c, o):
-    return None if o["kind"] == "ok" else "encoder failed"
+    if o["kind"] != "ok":
+        return "encoder failed"
+    if not c.get("outside") and o.get("enc2") != o.get("enc"):
+        # decoder/encoder pair on one value inside the claim: what go-json reads back is written identically
+        return "value %r is not a fixed point of read-then-write: %r -> %r" % (c["val"], unb64(o["enc"]), unb64(o.get("enc2", "")))
+    return None
 
 
 # ---------------------------------------------------------------- correspondence (Gallina rendering)
@@ -387,8 +636,25 @@ def jterm(v, tok):
     raise ValueError(t)
 
 
+def rune_len(k, i):
+    """length of the valid UTF-8 sequence starting at k[i] (Go's utf8 acceptance ranges), 0 if none"""
+    c = k[i]
+    def cont(j):
+        return j < len(k) and 0x80 <= k[j] <= 0xbf
+    if 0xc2 <= c <= 0xdf:
+        return 2 if cont(i + 1) else 0
+    if 0xe0 <= c <= 0xef:
+        lo, hi = (0xa0 if c == 0xe0 else 0x80), (0x9f if c == 0xed else 0xbf)
+        return 3 if i + 2 < len(k) and lo <= k[i + 1] <= hi and cont(i + 2) else 0
+    if 0xf0 <= c <= 0xf4:
+        lo, hi = (0x90 if c == 0xf0 else 0x80), (0x8f if c == 0xf4 else 0xbf)
+        return 4 if i + 3 < len(k) and lo <= k[i + 1] <= hi and cont(i + 2) and cont(i + 3) else 0
+    return 0
+
+
 def enc_key(k):
-    """go-json orders the members of a map by their ENCODED key (quotes and escapes included)"""
+    """go-json orders the members of a map by their ENCODED key (quotes and escapes included); a byte that is not part of a
+    valid UTF-8 sequence is written as the six characters \\ufffd"""
     out = bytearray(b'"')
     i = 0
     while i < len(k):
@@ -407,10 +673,41 @@ def enc_key(k):
             out += b"\\t"
         elif c < 32:
             out += b"\\u00%02x" % c
+        elif c >= 0x80:
+            n = rune_len(k, i)
+            if n == 0:
+                out += b"\\ufffd"
+            else:
+                out += k[i:i + n]
+                i += n
+                continue
         else:
             out.append(c)
         i += 1
     return bytes(out + b'"')
+
+
+def is_utf8(b):
+    try:
+        b.decode("utf8")
+        return True
+    except UnicodeDecodeError:
+        return False
+
+
+def val_utf8(v):
+    t = v[0]
+    if t == "str":
+        return is_utf8(v[1])
+    if t in ("mapint",):
+        return all(is_utf8(k) for k in v[1])
+    if t == "mapstr":
+        return all(is_utf8(k) and is_utf8(x) for k, x in v[1].items())
+    if t == "map":
+        return all(is_utf8(k) and val_utf8(x) for k, x in v[1].items())
+    if t == "list":
+        return all(val_utf8(x) for x in v[1])
+    return True
 
 
 def members(m, tok):
@@ -440,23 +737,39 @@ def terms_of(c, o, tok):
     if o.get("kind") == "crash":
         return out
     if c["mode"] == "enc" and o["kind"] == "ok":
-        out.append("CSer (%s) %s" % (jterm(c["val"], tok), nl(unb64(o["enc"]))))
+        out.append("CSer (%s) %s %s" % (jterm(c["val"], tok), "true" if val_utf8(c["val"]) else "false", nl(unb64(o["enc"]))))
+        if o.get("enc2") and not unb64(o["enc2"]).startswith(b"!"):
+            out.append("CDec %s %s" % (nl(unb64(o["enc"])), nl(unb64(o["enc2"]))))
     elif c["mode"] == "scan":
         found = o["kind"] == "ok" and o["start"] >= 0 and o["stop"] >= 0
         out.append("CScan %s (%d)%%Z (%d)%%Z %s %s" % (nl(c["header"]), o["start"], o["stop"], "true" if found else "false", nl(unb64(o.get("rest", "")) if found else b"")))
         if "objbytes" in c:
-            out.append("CSer (%s) %s" % (jobj(c["obj"], tok), nl(c["objbytes"])))
+            out.append("CSer (%s) true %s" % (jobj(c["obj"], tok), nl(c["objbytes"])))
+        strict = "true" if c.get("strict") or ("objbytes" in c and not c["pre"]) else "false"
+        modelled = True               # (round 2: invalid UTF-8 is inside the model: the marshaller writes \\ufffd)
+        for g, kk, ee in (("false", "hkind", "henc"), ("true", "gkind", "genc")):
+            if g == "true" and not (c["header"].startswith(b"{") or c["header"] == b""):
+                continue              # guessed parser on a title not starting with a brace: OBI-style parser, not modelled
+            if modelled and o.get(kk) in ("ok", "fatal"):
+                out.append("CHdr %s %s %s %s %s" % (g, strict if g == "false" or c["header"].startswith(b"{") else "false", nl(c["header"]),
+                                                   "true" if o[kk] == "fatal" else "false", nl(unb64(o.get(ee, "")))))
     elif c["mode"] == "rt" and o.get("w1"):
         fq = "true" if c["fmt"] == "fastq" else "false"
         w1 = unb64(o["w1"])
         dom = all(r["qual"] is not None and max(r["qual"]) <= 93 for r in c["recs"]) if c["fmt"] == "fastq" else True
         out.append("CWrite %s %d [%s] %s %s" % (fq, c["shift"], "; ".join(wrec_term(r, c["fmt"], tok) for r in c["recs"]), "true" if dom else "false", nl(w1)))
+        if o["kind"] == "ok" and c["fmt"] == "fastq" and c.get("shift2") and c["shift2"] != c["shift"] and dom:
+            # the same records written with the other quality offset
+            out.append("CWrite true %d [%s] true %s" % (c["shift2"], "; ".join(wrec_term(r, c["fmt"], tok) for r in c["recs"]), nl(unb64(o["w2"]))))
         if o["kind"] == "ok":
             # the chunk parser's view (qualities only exist for fastq)
             out.append("CRead %s %d %s [%s]" % (fq, c["shift"], nl(w1), "; ".join(prec_term(x) for x in o["recs"])))
             for x in o["recs"]:
                 if x["start"] != -2:
                     out.append("CScan %s (%d)%%Z (%d)%%Z false []" % (nl(unb64(x["rawdef"])), x["start"], x["stop"]))
+                if x.get("enc") is not None:
+                    # the header parser of the model (map decoder, float64 number path) on what the chunk parser returned
+                    out.append("CHdr %s true %s false %s" % ("true" if c["parser"] == "guessed" else "false", nl(unb64(x["rawdef"])), nl(unb64(x["enc"]))))
     return out
 
 
@@ -482,11 +795,19 @@ def correspond(ctx, cases, obs, broken, label):
         for t in terms_of(c, o, tok):
             terms.append(t)
             owner.append(i)
-    bad, err = ctx.correspond(label, IMPORTS, terms, shard=120)
-    if bad is None:
-        broken.append(dict(kind="correspondence", detail=err))
-        return []
-    return [(owner[j], terms[j].split(" ")[0]) for j in bad]
+    # batches and chunk-parser cases are heavy (long byte lists): small shards; everything else: few big shards
+    heavy = [j for j, t in enumerate(terms) if t.startswith(("CWrite", "CRead", "CDec"))]
+    light = [j for j, t in enumerate(terms) if not t.startswith(("CWrite", "CRead", "CDec"))]
+    out = []
+    for sub, idx, shard in ((label + "h", heavy, 70), (label + "l", light, 700)):
+        if not idx:
+            continue
+        bad, err = ctx.correspond(sub, IMPORTS, [terms[j] for j in idx], shard=shard)
+        if bad is None:
+            broken.append(dict(kind="correspondence", detail=err))
+            return []
+        out += [idx[j] for j in bad]
+    return [(owner[j], terms[j].split(" ")[0]) for j in sorted(out)]
 
 
 def nontrivial(c):
@@ -573,7 +894,10 @@ def run_cases(ctx, cases, broken, label, correspond_too=True):
             ob = unb64(e["enc"]) if e.get("kind") == "ok" else b"{}"
             cases[i]["objbytes"] = ob
             cases[i]["header"] = cases[i]["pre"] + ob + cases[i]["rest"]
+    import time
+    t0 = time.time()
     obs = ctx.vh_robust("c02", [to_vh(c) for c in cases], timeout=600, one_timeout=10)
+    ctx.cov.setdefault("timing_s", {})[label + "_harness"] = round(time.time() - t0, 1)
     nviol = 0
     for i, (c, o) in enumerate(zip(cases, obs)):
         why = dict(rt=oracle_rt, scan=oracle_scan, enc=oracle_enc)[c["mode"]](c, o) if o.get("kind") != "crash" else "harness crashed"
@@ -585,7 +909,9 @@ def run_cases(ctx, cases, broken, label, correspond_too=True):
                 so = ctx.vh_robust("c02", [to_vh(small)], timeout=60, one_timeout=10)[0]
                 ctx.violation("%s_oracle_%d" % (label, i), dict(property="C02", kind="direct-oracle", why=orc(small, so) or why, case=to_vh(small), tag=c.get("tag"),
                                                               readable=readable(small), implementation=so, before_shrinking=to_vh(c) if small is not c else None))
+    t0 = time.time()
     mism = correspond(ctx, cases, obs, broken, label) if correspond_too else []
+    ctx.cov.setdefault("timing_s", {})[label + "_coq"] = round(time.time() - t0, 1)
     return obs, mism
 
 
@@ -625,10 +951,15 @@ def val_from_vh(d):
 
 def from_vh(c):
     if c["mode"] == "scan":
-        return dict(mode="scan", header=unb64(c["header"]))
+        d = dict(mode="scan", header=unb64(c["header"]))
+        if c.get("strict"):
+            d["strict"] = True
+            if "expect" in c:
+                d["expect"] = unb64(c["expect"])
+        return d
     if c["mode"] == "enc":
         return dict(mode="enc", val=val_from_vh(c["val"]))
-    return dict(mode="rt", fmt=c["fmt"], shift=c["shift"], parser=c["parser"],
+    return dict(mode="rt", fmt=c["fmt"], shift=c["shift"], shift2=c.get("shift2", 0), parser=c["parser"],
                 recs=[dict(id=unb64(r["id"]), definition=unb64(r.get("def", "")), seq=unb64(r["seq"]), qual=r.get("qual"),
                            ann={unb64(k): val_from_vh(v) for k, v in r.get("ann", {}).items()}) for r in c["recs"]])
 
@@ -663,11 +994,33 @@ def cli_stage(ctx, cases, obs, broken):
                               dict(property="C02", kind="cli", why="obiconvert %s of text written by the toolkit: exit %d, output %s" % (
                                   " ".join(flags), rc, "identical" if out == text else "differs (first differing line %s)" % first),
                                    input_b64=b64(text), cmd=[exe] + flags + [path]))
+    # FASTQ written with offset 64 read with --solexa: must come out as the offset-33 text of the same records
+    sel = [(unb64(o["w1"]), unb64(o["w2"])) for c, o in zip(cases, obs) if c["mode"] == "rt" and c["fmt"] == "fastq" and c["shift"] == 64 and c.get("shift2") == 33
+           and o.get("kind") == "ok" and all(r["qual"] is not None and max(r["qual"]) <= 93 for r in c["recs"])]
+    if sel:
+        text64, text33 = b"".join(a for a, _ in sel), b"".join(b for _, b in sel)
+        path = os.path.join(vlib.BUILD, "c02_cli_%s_in64.fastq" % ctx.tier)
+        with open(path, "wb") as f:
+            f.write(text64)
+        for flags in (["--solexa"], ["--solexa", "--input-json-header"]):
+            try:
+                p = subprocess.run([exe] + flags + [path], capture_output=True, timeout=300)
+                rc, out = p.returncode, p.stdout
+            except subprocess.TimeoutExpired:
+                rc, out = 124, b""
+            n += 1
+            if rc != 0 or out != text33:
+                first = next((k for k, (a, b) in enumerate(zip(out.split(b"\n"), text33.split(b"\n"))) if a != b), None)
+                ctx.violation("cli_fastq_solexa_%s" % ("json" if len(flags) > 1 else "guessed"),
+                              dict(property="C02", kind="cli", why="obiconvert %s of FASTQ written with quality offset 64: exit %d, output %s the offset-33 text of the same records" % (
+                                  " ".join(flags), rc, "is" if out == text33 else "differs (first differing line %s) from" % first),
+                                   input_b64=b64(text64), expected_b64=b64(text33), cmd=[exe] + flags + [path]))
+        ctx.cov["cli_solexa_records"] = sum(a.count(b"\n") // 4 for a, _ in sel)
     ctx.cov["cli_roundtrips"] = n
 
 
 def run(ctx, broken):
-    n_rt, n_scan, n_enc = (250, 500, 150) if ctx.quick else (6000, 20000, 4000)
+    n_rt, n_scan, n_enc = (220, 400, 150) if ctx.quick else (6000, 20000, 4000)
     cases = gen_cases(ctx, n_rt, n_scan, n_enc)
     scope = 4 if ctx.quick else 6
     ex = exhaustive_scan_cases(scope)
@@ -677,8 +1030,9 @@ def run(ctx, broken):
     ctx.cov["evaluations"] = len(cases)
     ctx.cov["distinct_nontrivial"] = len({case_key(c) for c in cases if nontrivial(c)})
     ctx.cov["rule"] = ("rt: records written and re-read (non-trivial = some annotation or a sequence longer than one 60-column line); "
-                       "scan: title-line remainders through _parse_json_header_ (non-trivial = contains a brace, quote or backslash); "
-                       "enc: single values through the marshaller; distinct = distinct harness input")
+                       "scan: title-line remainders through _parse_json_header_ and both header parsers, free-style JSON included (non-trivial = contains a brace, quote or backslash); "
+                       "enc: single values through the marshaller and back through go-json; distinct = distinct harness input")
+    ctx.cov["free_style_title_lines"] = sum(1 for c in cases if c.get("strict") and "expect" in c)
     dist = {}
     for c, o in zip(cases, obs):
         k = "%s/%s/%s" % (c["mode"], c.get("fmt", "-"), o.get("kind"))
@@ -713,10 +1067,22 @@ def run(ctx, broken):
         with_definition=sum(1 for r in recs if r["definition"]), without_annotation=sum(1 for r in recs if not r["ann"] and not r["definition"]),
         quality_0_or_93=sum(1 for r in recs if r["qual"] and (0 in r["qual"] or 93 in r["qual"])),
         shifts={str(k): sum(1 for c in cases if c["mode"] == "rt" and c["fmt"] == "fastq" and c["shift"] == k) for k in (33, 40, 64)},
+        shift_pairs={"%d->%d" % (a, b): sum(1 for c in cases if c["mode"] == "rt" and c["fmt"] == "fastq" and c["shift"] == a and c.get("shift2") == b)
+                     for a in (33, 40, 64) for b in (33, 64)},
         parsers={k: sum(1 for c in cases if c["mode"] == "rt" and c["parser"] == k) for k in ("json", "guessed")})
+    inv = [(c, o) for c, o in zip(cases, obs) if c.get("invalid_utf8") and o.get("kind") == "ok"]      # NB: shadows nothing
+    ctx.cov["invalid_utf8"] = dict(cases=len(inv), first_write_escapes_as_ufffd=sum(1 for c, o in inv if b"\\ufffd" in unb64(o["enc"])),
+                                   rewrite_differs=sum(1 for c, o in inv if o.get("enc2") != o.get("enc")), note="outside the claim; recorded, never an alarm")
+    ctx.cov["outside_claim_ints"] = dict(cases=sum(1 for c in cases if c.get("outside") and not c.get("invalid_utf8")),
+                                         value_changed=sum(1 for c, o in zip(cases, obs) if c.get("outside") and not c.get("invalid_utf8") and o.get("enc2") != o.get("enc")))
     ctx.samples = [dict(case=readable(c), kind=o.get("kind")) for c, o in list(zip(cases, obs))[:2] + list(zip(cases, obs))[30:33]]
     ctx.cov["model_vs_impl_mismatches"] = len(mism)
+    if mism:
+        ctx.cov["mismatch_samples"] = [dict(kind=k, case=readable(cases[i]), obs={a: b for a, b in obs[i].items() if a not in ("w1", "w2", "recs")}) for i, k in mism[:6]]
+    import time
+    t0 = time.time()
     cli_stage(ctx, cases, obs, broken)
+    ctx.cov.setdefault("timing_s", {})["cli"] = round(time.time() - t0, 1)
     if mism and not ctx.violations:
         # model != code but the direct oracle is satisfied on those inputs: search harder through the oracle
         more = gen_cases(ctx, 3000, 6000, 0)
@@ -734,7 +1100,7 @@ def replay(ctx, rp):
         path = os.path.join(os.path.dirname(ctx.replay_path("x")), "cli_replay_input")
         open(path, "wb").write(unb64(rp["input_b64"]))
         p = subprocess.run(rp["cmd"][:-1] + [path], capture_output=True, timeout=300)
-        print("replay: obiconvert exit", p.returncode, "output identical to input:", p.stdout == unb64(rp["input_b64"]))
+        print("replay: obiconvert exit", p.returncode, "output as expected:", p.stdout == unb64(rp.get("expected_b64", rp["input_b64"])))
         return
     c = from_vh(rp["case"])
     n0 = len(ctx.violations)
